@@ -19,8 +19,9 @@ class LoopSpec:
     variant(ctx)  -> int term that decreases (while loops; termination is claimed only if given)
     shapes        -> {name: callable() -> fresh value} for havocked variables whose shape cannot be inferred
     """
-    def __init__(self, defs=None, inv=None, modifies=(), variant=None, shapes=None, unroll=False):
+    def __init__(self, defs=None, inv=None, modifies=(), variant=None, shapes=None, unroll=False, cases=None):
         self.defs, self.inv, self.modifies, self.variant = defs, inv, tuple(modifies), variant
+        self.cases = cases or {}        # proof hints: name -> (ctx, k) -> (i -> (index terms, rest condition))
         self.shapes = shapes or {}
         self.unroll = unroll
 
@@ -119,7 +120,8 @@ def iteration_space(ex, s, st):
         if not isinstance(step, int) or step <= 0:
             raise SymErr('range step must be a positive constant')
         if isinstance(lo, int) and isinstance(hi, int):
-            return list(range(lo, hi, step)), None, None
+            rng = range(lo, hi, step)
+            return list(rng), len(rng), (lambda k: lo + k * step)
         span = hi - lo
         if step == 1:
             n = ite(span > 0, span, 0)
@@ -135,6 +137,10 @@ def iteration_space(ex, s, st):
     if isinstance(v, Ref):
         st.locals['__iter_cell__%d' % s.lineno] = v
     sq = st.seq(v)
+    if not isinstance(sq.n, int):
+        c = ex.constant_of(sq.n, st)
+        if c is not None:
+            sq = SSeq(c, sq.get, sq.kind)
     if isinstance(sq.n, int) and sq.n <= UNROLL_LIMIT:
         items = [sq.get(i) for i in range(sq.n)]
         return ([(i, x) for i, x in enumerate(items)] if enum else items), None, None
@@ -164,7 +170,7 @@ def exec_for(ex, s, st):
         return unroll(ex, s, st, items)
     if spec is None:
         raise SymErr('loop %d at line %d needs an invariant' % (ordn, s.lineno))
-    if items is not None:
+    if items is not None and item is None:
         tbl = items
         n, item = len(items), (lambda k: SSeq.of(tbl, 'list').get(k))
     return cut_loop(ex, s, st, spec, ordn, n, item)
@@ -227,7 +233,12 @@ def cut_loop(ex, s, st, spec, ordn, n, item, is_while=False):
             have = c.get(name) if ('.' in name or '[' in name) else (c[name] if c.has(name) else None)
             if have is None:
                 raise SymErr('invariant names undefined variable %s' % name)
-            ex.oblige(state, ex.with_sink(state, s, lambda: val_eq(have, want)), '%s/%s.%s' % (tag, kind, name), s)
+            cs = spec.cases.get(name)
+            cs = cs(c, k) if cs is not None else None
+            with ex.oracle(state):
+                parts = ex.with_sink(state, s, lambda: V.split_eq(have, want, cases=cs))
+            for suf, cl in parts:
+                ex.oblige(state, cl, '%s/%s.%s%s' % (tag, kind, name, suf), s)
         for nm, cl in _clauses(ex.with_sink(state, s, lambda: spec.inv(c, k)) if spec.inv else None):
             ex.oblige(state, cl, '%s/%s.%s' % (tag, kind, nm), s)
 
@@ -279,6 +290,7 @@ def cut_loop(ex, s, st, spec, ordn, n, item, is_while=False):
         return cut_while(ex, s, st, spec, tag, head, check, enforce_frame, entry)
     # 2. preserved by an arbitrary iteration
     k = V.fresh_int('k')
+    V.note_range(k, 0, n)
     h = head(k)
     h.assume(AND(k >= 0, k < n))
     if feasible(h.pc):
